@@ -33,6 +33,9 @@ def bfs(run, name, init_cases, depth, bounds="", key_of_init=None):
         )
         total += len(cases)
         frontier = nxt
+        if run.violations:
+            # BFS order: the shortest counterexamples are already recorded; deeper levels add nothing
+            break
         if not frontier:
             break
     return total, len(frontier)
